@@ -118,6 +118,7 @@ func runC09(c *core.Ctx, r *core.Reporter) {
 	c09nilrecv(c, r)
 	c09nilret(c, r)
 	c09errnil(c, r)
+	hashKeyRules(c, r, "C09.key", false)
 }
 
 // derivesFromLispInt: v is computed (conversions, +/- constants) from a slip.Fixnum value or an Int64() result.
